@@ -22,11 +22,12 @@ API: `add_tween` → `_add_tween`, the three `add_*_predicate` → `_add_predica
 `StaticURLInfo.add`, `add_cache_buster` → `StaticURLInfo.add_cache_buster`, otherwise the method itself); each must
 be an `@action_method`, because the outermost wrapper is what records the calling statement as `action_info`.
 
-`docCategory` is the category name introspector.rst documents for the introspectable (absent for the
-families the chapter does not list: predicates, view derivers, request extensions, execution policy,
-response factory, csrf storage policy, cache busters, accept view order).  It differs from the category in
-the source exactly once: `set_default_csrf_options` files its introspectable under
-'default csrf view options' while the chapter says ``default csrf options`` (finding F-C20c).
+`docCategory` is the category name introspector.rst documents for the introspectable; the chapter's headings themselves
+are *generated* (`Gen.C20.docCategories`), and `documented_categories` decides on every run that each `docCategory` is
+one of them, equals the category in the source, that every heading is recorded by some directive, and that the only
+recorded categories without a heading are the ones in `undocumentedCategories` below (families the chapter is silent
+about).  (Until /repo 4ce8e67 the chapter called the CSRF category ``default csrf options`` — finding F-C20c, fixed in
+the document.)
 
 Things the chapter documents that no directive records (not demanded by the property, which speaks of the
 *recorded* values): `routes.request_method`, `views.csrf_token`, `resource url adapters.request_iface`.
@@ -36,6 +37,12 @@ the extra `**view_options`, `routes.external_url`, `subscribers.phash/order`,
 -/
 import PyramidModel.Lemmas.IntrospectTable
 namespace Pyr.Introspect
+
+/-- category expressions of directive families the chapter does not list (source text of the first argument of
+`self.introspectable`) -/
+def undocumentedCategories : List String :=
+  ["'%s predicates' % type", "'view derivers'", "'request extensions'", "'execution policy'", "'response factory'",
+   "'csrf storage policy'", "'cache busters'", "'accept view order'"]
 
 def specDirectives : List SDirective := [
   { file := "adapters.py", name := "add_subscriber",
@@ -349,7 +356,7 @@ def specDirectives : List SDirective := [
       ⟨"None", "", "", [], some [("intr", [])]⟩] },
   { file := "security.py", name := "set_default_csrf_options",
     entries := ["SecurityConfiguratorMixin.set_default_csrf_options"],
-    docCategory := [("intr", "default csrf options")],
+    docCategory := [("intr", "default csrf view options")],
     params := ["require_csrf", "token", "header", "safe_methods", "check_origin", "allow_no_origin", "callback"],
     intros := [
       { var := "intr", category := "'default csrf view options'", discr := "None", title := "options", typeName := "'default csrf view options'" }],
